@@ -62,7 +62,7 @@ def atoms_full():
         for cflag in (False, True):
             for neg in (False, True):
                 A.append(["desc", text, quote, cflag, neg])
-    for glob in ("ab", "a_b", "p*", "*s", "*p*", "dir/ab", "a*", "*_b", "nosuch"):
+    for glob in ("ab", "a_b", "p*", "*s", "*p*", "dir/ab", "a*", "*_b", "nosuch", "ffa", "f*", "fa", "*fa"):
         for neg in (False, True):
             A.append(["file", glob, neg])
     for name in ("b", "cee", "ab", "dir/ab", "bb", "nosuch"):
